@@ -24,9 +24,9 @@ func init() {
 		Required:      []string{"identity:abs", "identity:compose", "identity:wrap", "identity:truth", "shape:absoluteQuery", "shape:unionQuery", "shape:booleanQuery"},
 		Families: []Family{
 			witnessFamily("C13"),
-			{Name: "abs", N: tierN(4000, 60000), Run: c13Abs},
-			{Name: "compose", N: tierN(4000, 60000), Run: c13Compose},
-			{Name: "wrap", N: tierN(20000, 300000), Run: c13Wrap},
+			{Name: "abs", N: tierN(10000, 120000), Run: c13Abs},
+			{Name: "compose", N: tierN(10000, 120000), Run: c13Compose},
+			{Name: "wrap", N: tierN(80000, 1000000), Run: c13Wrap},
 		},
 	})
 }
@@ -155,9 +155,12 @@ func c13Wrap(c *Case) {
 	}
 	env := &xgen.Env{Doc: d, Ctx: ctx, Names: namesIn(d)}
 	var p xref.Expr
-	switch g.Intn(4) {
+	switch g.Intn(5) {
 	case 0:
 		p = xref.Bin{Op: "|", L: c13Path(g, env, g.Chance(0.3)), R: c13Path(g, env, g.Chance(0.3))}
+	case 1:
+		// paths with positional first predicates on child steps (C03 fragment): the wrapping identities hold for them too
+		p = g.PosPath(env, 4)
 	default:
 		p = c13Path(g, env, g.Chance(0.3))
 	}
